@@ -2088,7 +2088,8 @@ namespace k34
             for (unsigned g : s1.goals) both += std::binary_search(s1.starts.begin(), s1.starts.end(), g);
             if (both) sink.count("c09_pd_graphs_storing_start_and_goal_vertex");
         }
-        if (!s1.goalListSorted) sink.count("c09_pd_graphs_goal_marks_out_of_order");
+        if (!s1.goalListSorted) sink.count("c09_pd_graphs_goal_list_observed_unsorted");  // symptom of the markGoalState defect
+        if (gs.goalOrderRandom && s1.nv > 0) sink.count("c09_pd_graphs_goal_marks_out_of_order");  // generated: marks in arbitrary vertex order
         if (s1.starts.size() > 1) sink.count("c09_pd_graphs_multi_start");
         if (s1.goals.size() > 1) sink.count("c09_pd_graphs_multi_goal");
         if (gs.removedV) sink.count("c09_pd_graphs_with_removed_vertices");
